@@ -608,3 +608,5 @@ def run(ctx, led):
     run_rule(led, "V3", "Assignments::tighten_* write only strictly tighter bounds", v3, ctx)
     run_rule(led, "V4", "every API function returns at decision level 0, so bounds read between "
              "calls are root bounds (TYPESTATE, shared with C10)", v_level, ctx)
+    from . import C09 as _C09
+    run_rule(led, "V5", "a reified propagator forgets its cached inconsistency on every synchronise, so a conflict of an abandoned branch cannot fix the reification literal at the root (shared with C09-R3)", _C09.r3, ctx)
